@@ -430,6 +430,38 @@ def worker(rec, shard, nshards, thorough, seed):
         if not must <= got:
             rec.violation("C07:cell-error-missing:F7:bad-delay-value", file=tsv, expected_at_least=sorted(must), got=sorted(got))
         rec.outcome("bad-delay-value")
+    # F8 sheets without a header row: columns are numbered from 0, rows from 1
+    from hed.models.spreadsheet_input import SpreadsheetInput
+    k8 = ["tag", "unknown", "reptag", "na", "ext"]
+    sheet_cases = list(itertools.product(k8, repeat=4))
+    for ci in core.shard_order(len(sheet_cases), shard, nshards, seed):
+        combo = sheet_cases[ci]
+        rows8 = [combo[:2], combo[2:]]
+        tsv = "".join("\t".join(KINDS[k] for k in r) + "\n" for r in rows8)
+        rec.n("evaluations")
+        rec.n("transitions")
+        rec.n("distinct_nontrivial")
+        rec.state(("F8", combo))
+        try:
+            sheet = SpreadsheetInput(io.StringIO(tsv), file_type=".tsv", tag_columns=[0, 1], has_column_names=False, name="s.tsv")
+            issues = sheet.validate(env.schema, extra_def_dicts=env.dd)
+        except Exception as e:
+            rec.violation(f"C07:raises:{type(e).__name__}:headerless-sheet", file=tsv, error=repr(e)[:300])
+            continue
+        for i, r in enumerate(rows8):
+            want_cols = sorted(j for j, k in enumerate(r) if k == "unknown")
+            got_cols = sorted(x.get("ec_column") for x in issues if x["code"] == "TAG_INVALID" and x.get("ec_row") == i + 1)
+            if [repr(c) for c in got_cols] != [repr(c) for c in want_cols]:
+                rec.violation("C07:cell-issue-location:headerless-sheet", file=tsv, row=i + 1, expected_columns=want_cols,
+                              got=[(x.get("ec_row"), x.get("ec_column")) for x in issues if x["code"] == "TAG_INVALID"])
+                break
+            ext_cols = sorted(j for j, k in enumerate(r) if k == "ext")
+            got_ext = sorted(x.get("ec_column") for x in issues if x["code"] == "TAG_EXTENDED" and x.get("ec_row") == i + 1)
+            if [repr(c) for c in got_ext] != [repr(c) for c in ext_cols]:
+                rec.violation("C07:cell-warning-location:headerless-sheet", file=tsv, row=i + 1, expected_columns=ext_cols,
+                              got=[(x.get("ec_row"), x.get("ec_column")) for x in issues if x["code"] == "TAG_EXTENDED"])
+                break
+        rec.outcome("headerless-sheet")
     # F4 unit spellings of Delay / Duration groups
     spell_cases = []
     for sp in UNIT_SPELLINGS:
